@@ -72,8 +72,34 @@ class _Prepended(io.RawIOBase):
         return self._tail.readinto(buffer)  # type: ignore[attr-defined, no-any-return]
 
 
+_READ_CHUNK = 1 << 20
+
+
+class _BoundedReads:
+    """
+    Reader whose ``read(size)`` allocates no more than what actually arrives.
+
+    A frame's length prefix is merely *declared* by the input; buffered readers
+    allocate the requested size up front, so a hostile (or corrupt) prefix must
+    not be passed on as a single read request.
+    """
+
+    def __init__(self, inp: IO[bytes]) -> None:
+        self._inp = inp
+
+    def read(self, size: int = -1) -> bytes:
+        if size is None or size <= _READ_CHUNK:
+            return self._inp.read(size)
+        parts = []
+        while size > 0 and (part := self._inp.read(min(size, _READ_CHUNK))):
+            parts.append(part)
+            size -= len(part)
+        return b"".join(parts)
+
+
 def frame_iterator(inp: IO[bytes]) -> Generator[jelly.RdfStreamFrame]:
-    while frame := parse_length_prefixed(jelly.RdfStreamFrame, inp):
+    bounded = _BoundedReads(inp)
+    while frame := parse_length_prefixed(jelly.RdfStreamFrame, bounded):  # type: ignore[arg-type]
         yield frame
 
 
